@@ -521,12 +521,13 @@ fn minimise_loop(which: u32, case: &LoopCase, kind: &str, fails: &dyn Fn(&LoopCa
   }
   let mut changed = true;
   let mut rounds = 0;
-  while changed && rounds < 30 {
+  let dl = Deadline::after_secs(60);
+  while changed && rounds < 30 && !dl.passed() {
     changed = false;
     rounds += 1;
     // drop keyboard events (adjusting the arrival that carried them)
     let mut idx = best.script.kb_events.len();
-    while idx > 0 {
+    while idx > 0 && !dl.passed() {
       idx -= 1;
       let mut c = best.clone();
       c.script.kb_events.remove(idx);
@@ -553,7 +554,7 @@ fn minimise_loop(which: u32, case: &LoopCase, kind: &str, fails: &dyn Fn(&LoopCa
     }
     // drop actions
     let mut ai = best.script.actions.len();
-    while ai > 0 {
+    while ai > 0 && !dl.passed() {
       ai -= 1;
       let mut c = best.clone();
       let removed = c.script.actions.remove(ai);
@@ -608,7 +609,7 @@ fn minimise_loop(which: u32, case: &LoopCase, kind: &str, fails: &dyn Fn(&LoopCa
     }
     // drop mappings
     let mut mi = best.layout.mappings.len();
-    while mi > 0 {
+    while mi > 0 && !dl.passed() {
       mi -= 1;
       let mut c = best.clone();
       c.layout.mappings.remove(mi);
